@@ -17,7 +17,10 @@ for f in ctx.failures:
     case = f["case"] if isinstance(f["case"], dict) else {}
     key = (f["leg"], str(f["family"]).split("(")[0][:30], str(case.get("format", ""))[:4], f.get("finding"), f["detail"][:90])
     c[key] += 1; ex.setdefault(key, f)
+only_new = os.environ.get("TRIAGE_NEW") == "1"
 for k, v in c.most_common():
+    if only_new and k[3] is not None:
+        continue
     print(v, k)
     print("      e.g.", json.dumps(ex[k]["case"], default=str)[:300])
 print("evaluations", ctx.cov["evaluations"], "failures", len(ctx.failures))
